@@ -480,7 +480,7 @@ def parse_args(argv):
 
 
 def standard_check(prop, argv, harness_args, trusted_base, assumptions, rule,
-                   coqchk=False, consts=False, harness_timeout=1500, post=None):
+                   coqchk=False, consts=False, harness_timeout=1500, post=None, gen=False):
     """The common shape of a check (DESIGN 1.1/1.2).
 
     harness_args(tier, seed, outdir) -> argv for the Go harness; the harness writes into outdir:
@@ -494,7 +494,7 @@ def standard_check(prop, argv, harness_args, trusted_base, assumptions, rule,
     r.coverage["trusted_base"] = trusted_base
     r.coverage["rule"] = rule
     try:
-        return _standard_check(prop, a, r, harness_args, coqchk, consts, harness_timeout, post)
+        return _standard_check(prop, a, r, harness_args, coqchk, consts, harness_timeout, post, gen)
     except Exception as e:  # machinery failure: report as such, non-zero, no VIOLATION line
         import traceback
         traceback.print_exc()
@@ -503,7 +503,7 @@ def standard_check(prop, argv, harness_args, trusted_base, assumptions, rule,
         return 2
 
 
-def _standard_check(prop, a, r, harness_args, coqchk, consts, harness_timeout, post):
+def _standard_check(prop, a, r, harness_args, coqchk, consts, harness_timeout, post, gen=False):
     exe, out = build_harness(prop)
     if exe is None:
         log(out[-3000:])
@@ -527,7 +527,13 @@ def _standard_check(prop, a, r, harness_args, coqchk, consts, harness_timeout, p
         return r.finish(gate)
     if consts:
         regen_consts(prop, exe)
+    gen_failure = regen_gen(prop) if gen else None
     gate = proof_gate(prop)
+    if gen_failure:
+        # the translator could not regenerate Gen.v from the current sources (unsupported construct after a
+        # refactoring, function not found): the proofs were checked against a stale Gen.v, so the gate is red
+        gate["ok"] = False
+        gate["failures"].insert(0, gen_failure)
     if not gate["ok"]:
         log("proof gate RED:", gate["failures"])
     outdir = os.path.join(r.workdir, "cases")
@@ -663,6 +669,52 @@ def regen_consts(prop, exe):
         with Lock("coq-" + prop):
             open(path, "w").write(out)
         log("Consts.v regenerated (changed)")
+
+
+def build_go2coq(timeout=600):
+    """go build ./cmd/go2coq (standard library only) from the harness module; binary under the build dir."""
+    outdir = os.path.join(BUILD, "bin" if REPO == "/repo" else "bin-" + hashlib.sha1(REPO.encode()).hexdigest()[:10])
+    os.makedirs(outdir, exist_ok=True)
+    exe = os.path.join(outdir, "go2coq")
+    with Lock("go2coq"):
+        tmp = exe + ".tmp%d" % os.getpid()
+        rc, out = run(["go", "build", "-o", tmp, "./cmd/go2coq"], cwd=os.path.join(ROOT, "harness"),
+                      timeout=timeout, env=goenv())
+        if rc != 0:
+            return None, out
+        os.replace(tmp, exe)
+    return exe, out
+
+
+def regen_gen(prop):
+    """Regenerate props/<prop>/coq/Gen.v from the Go sources of REPO with the translator
+    (harness/cmd/go2coq, spec props/<prop>/gen.json); the file is rewritten only when its text changed so
+    that make re-checks every proof depending on it. Returns None, or a failure text `gen:<prop>/<func>: ...`
+    (the caller turns it into a red proof gate; it never raises for a translation failure)."""
+    spec = os.path.join(ROOT, "props", prop, "gen.json")
+    exe, out = build_go2coq()
+    if exe is None:
+        raise RuntimeError("go2coq does not build: " + out[-1500:])
+    tmpd = tempfile.mkdtemp(prefix="verif-gen-")
+    try:
+        tmp = os.path.join(tmpd, "Gen.v")
+        rc, out = run([exe, "-repo", REPO, "-spec", spec, "-out", tmp], timeout=120, env=goenv())
+        if rc != 0:
+            m = re.search(r"FAILED func=(\S*?): (.*)", out)
+            func, msg = (m.group(1), m.group(2)) if m else ("?", out.strip()[-300:])
+            log("go2coq failed:", out.strip()[-600:])
+            return "gen:%s/%s: the translator cannot regenerate the Gallina definition from the source: %s" % (
+                prop, func, msg[:300])
+        new = open(tmp).read()
+    finally:
+        shutil.rmtree(tmpd, ignore_errors=True)
+    path = os.path.join(coq_dir(prop), "Gen.v")
+    old = open(path).read() if os.path.exists(path) else None
+    if old != new:
+        with Lock("coq-" + prop):
+            open(path, "w").write(new)
+        log("Gen.v regenerated (changed)")
+    return None
 
 
 def run_coqchk(prop, timeout=3000):
